@@ -110,6 +110,13 @@ static void do_find(const jv *v)
     if (al_live != live) viol("C07 C15", "pointer construction leaks");
     by[1]++;
 }
+static void flag_all(cJSON *t, int on)
+{
+    cJSON *c;
+    if (on) { if (t->string) t->type |= cJSON_StringIsConst; if ((t->type & 0xFF) == cJSON_String) t->type |= cJSON_IsReference; }
+    else t->type &= 0xFF;
+    for (c = t->child; c; c = c->next) flag_all(c, on);
+}
 /* signature of the known finding: an operation copy or move whose path is the empty pointer */
 static int has_copy_move_to_root(const jv *patch)
 {
@@ -146,6 +153,18 @@ static void do_apply(const jv *v)
     if (!al_check_redzones()) viol("C16", "patching wrote beyond an allocated block");
     cJSON_Delete(doc); cJSON_Delete(patch);
     if (al_live != 0) viol("C07 C16", "%ld block(s) leaked by patch application (status %d)", al_live, st);
+    /* the same document as the construction API builds it with constant keys and string references */
+    if (cls[0] != 'O') {
+        cm_case_begin(); doc = vb_build_flagged(jv_at(v, 1)); patch = vb_build_flagged(jv_at(v, 2));      /* the patch document too */
+        al_window(0); st = cJSONUtils_ApplyPatchesCaseSensitive(doc, patch);
+        if (cls[0] == 'S' && !(st != 0 && has_copy_move_to_root(jv_at(v, 2)))) {
+            if (st != 0 || !sem_equal(jv_at(v, 4), doc)) viol("C16", "document with constant keys / string references: status %d or result differs from RFC 6902", st);
+        } else if (cls[0] == 'F' && st == 0) viol("C16", "document with constant keys / string references: status 0 for a patch whose RFC 6902 evaluation fails");
+        if ((doc->type & 0xFF) != cJSON_Invalid && !vb_wellformed(doc, why, sizeof(why), 0)) viol("C16 C19", "flagged document after patching: %s", why);
+        cJSON_Delete(doc); cJSON_Delete(patch);
+        if (al_bad_free || !cm_intact(why, sizeof(why))) viol("C07 C16", "patching a document with constant keys / string references released or modified borrowed memory");
+        if (al_live != 0) viol("C07 C16", "%ld block(s) leaked by patching a document with constant keys / string references", al_live);
+    }
     by[2]++; by[3 + (cls[0] == 'S' ? 0 : cls[0] == 'F' ? 1 : 2)]++;
 }
 static void do_merge(const jv *v)
@@ -162,13 +181,6 @@ static void do_merge(const jv *v)
     cJSON_Delete(res); cJSON_Delete(patch);
     if (al_live != 0 || al_bad_free) viol("C07 C18", "%ld block(s) leaked / %ld invalid releases by merge patch application", al_live, al_bad_free);
     by[6]++;
-}
-static void flag_all(cJSON *t, int on)
-{
-    cJSON *c;
-    if (on) { if (t->string) t->type |= cJSON_StringIsConst; if ((t->type & 0xFF) == cJSON_String) t->type |= cJSON_IsReference; }
-    else t->type &= 0xFF;
-    for (c = t->child; c; c = c->next) flag_all(c, on);
 }
 static void do_pair(const jv *v)
 {
@@ -206,8 +218,7 @@ static void do_pair(const jv *v)
      * on the nodes change nothing */
     {
         cJSON *mp, *res, *copy2;
-        from = vb_build(jf); to = vb_build(jt);
-        flag_all(from, 1); flag_all(to, 1);
+        cm_case_begin(); from = vb_build_flagged(jf); to = vb_build_flagged(jt);
         p = cJSONUtils_GeneratePatchesCaseSensitive(from, to);
         if (!p || (p->child == NULL) != (eq != 0)) viol("C17", "with constant keys / string references in the documents the generated patch is %s although the documents are %s", (p && p->child) ? "not empty" : "empty", eq ? "equal" : "different");
         else { copy2 = cJSON_Duplicate(from, 1); st = cJSONUtils_ApplyPatchesCaseSensitive(copy2, p);
@@ -220,8 +231,8 @@ static void do_pair(const jv *v)
             if (!res || !sem_equal(jt, res)) { char *s = mp ? cJSON_PrintUnformatted(mp) : NULL; viol("C18", "documents with constant keys / string references: applying the generated merge patch (%s) to 'from' does not give 'to'", s ? s : "NULL = no change"); cJSON_free(s); }
             cJSON_Delete(res); cJSON_Delete(mp);
         }
-        flag_all(from, 0); flag_all(to, 0);
         cJSON_Delete(from); cJSON_Delete(to);
+        if (!cm_intact(why, sizeof(why))) viol("C07", "patch generation modified borrowed memory (constant keys / referenced strings)");
         if (al_live != 0 || al_bad_free) viol("C07 C17 C18", "%ld block(s) leaked / %ld invalid releases by patch generation on documents with ownership flags", al_live, al_bad_free);
     }
     by[7]++;
